@@ -507,10 +507,11 @@ Definition read_member (bs : list N) (c : cent) : rres (option N * list N) :=
 
 (* ------------------------------------------------------------------ corruptions *)
 
-Fixpoint subst_at (j : N) (v : N) (l : list N) : list N :=
-  match l with
-  | [] => []
-  | x :: r => if N.eqb j 0 then v :: r else x :: subst_at (N.pred j) v r
+(* byte j := v (nothing happens beyond the end); tail-recursive *)
+Definition subst_at (j : N) (v : N) (l : list N) : list N :=
+  match dropN j l with
+  | [] => l
+  | _ :: r => rev_append (take_acc j l []) (v :: r)
   end.
 
 Definition truncate_at (i : N) (l : list N) : list N := takeN i l.
